@@ -3,7 +3,7 @@
 From Coq Require Import List Bool Permutation.
 Import ListNotations.
 From Mos Require Import Str Xml Outcome Seq Spec Elements Classify Messages Merge Proto.
-From Mos.proofs Require Import Lift Examples.
+From Mos.proofs Require Import Lift Examples ItemFacts ItemNoDup.
 
 (* For every running order, every item-level class k and every schema-shaped message m of
    that class that addresses an existing story s (found at child index i of roCreate)
@@ -47,3 +47,27 @@ Theorem C02_nonvacuous :
   proto_item k b (item_ids s) = Some ids' /\ ids' <> item_ids s.
 Proof. exact ex_item_move. Qed.
 Print Assumptions C02_nonvacuous.
+
+(* The hypothesis "unique item IDs in the addressed story" of C02_item_order is an invariant.
+   One item-level edit (f = the edit of the message's class, item_edit) applied to the children
+   of a story keeps the item IDs pairwise distinct - whether it succeeds, warns or raises -
+   provided the items the message carries are fresh there (item_fresh: inserts and replaces
+   only; deletes, moves and swaps need nothing). *)
+Theorem C02_unique_item_ids_preserved :
+  forall (k : mclass) (m b : xml) (f : list xml -> res (list xml)) (ik : list xml),
+  item_edit k m b = Some f -> msg_ok m = true ->
+  NoDup (keys ikey ik) -> item_fresh k b (keys ikey ik) = true ->
+  NoDup (keys ikey (r_st (f ik))).
+Proof. exact item_edit_nodup. Qed.
+Print Assumptions C02_unique_item_ids_preserved.
+
+(* ... and for the whole running order, every class: if every story has pairwise distinct item
+   IDs and what the message carries is fresh (items_fresh_in: carried stories have distinct
+   item IDs; carried items are fresh in the story they go to), every story has pairwise
+   distinct item IDs afterwards. *)
+Theorem C02_unique_item_ids_everywhere :
+  forall (o : oracles) (k : mclass) (m b rc : xml),
+  msg_ok m = true -> forallb uniq_items (kids_of rc) = true -> items_fresh_in k b (kids_of rc) = true ->
+  forallb uniq_items (r_st (merge_kids o k m b rc)) = true.
+Proof. exact merge_kids_uniq_items. Qed.
+Print Assumptions C02_unique_item_ids_everywhere.
